@@ -69,6 +69,16 @@ def run(c):
         raise Infra("case generator failed:\n" + resG.out[-2000:])
     c.cov["states"] += resG.distinct; c.cov["transitions"] += resG.generated
     cases = [json.loads(json.loads(ln)) for ln in resG.printed if ln.startswith('"{')]
+    # service area restrictions in which some areas carry no TAC (an area is a TAC list OR an area code): the TAC-less area in
+    # front of, between and behind the others - the encoding is that of the remaining TACs
+    extra = []
+    for k in cases:
+        if k["fam"] == "sal" and len(k["areas"]) >= 1 and c.rng.random() < (1.0 if thorough else 0.4):
+            a = k["areas"]
+            for pos in sorted({0, len(a) // 2, len(a)}):
+                extra.append(dict(k, areas=a[:pos] + [[]] + a[pos:]))
+            if len(a) >= 2: extra.append(dict(k, areas=[[]] + a[:1] + [[]] + a[1:]))
+    cases += extra
     fams = {}
     for k in cases: fams[k["fam"]] = fams.get(k["fam"], 0) + 1
     if len(cases) < 3000 or len(fams) < 9:
